@@ -332,7 +332,20 @@ def auto_discharge(world, fn, s, const_only_fns):
                 # is_empty(s) == false where len is the length of (bytes of) s
                 if g[0] == "call" and g[1].endswith("::is_empty") and not truth and _const_le(idx, 0):
                     subj = g[2][0]
-                    if json.dumps(subj) in json.dumps(ln):
+                    # `len` has to be the length of the tested value itself (behind as_bytes / deref / borrow wrappers), not of something derived from
+                    # it: `s.is_empty()` says nothing about the pieces `s.split_once('/')` returns
+                    def _peel(e_):
+                        while isinstance(e_, (list, tuple)) and len(e_) >= 3:
+                            if e_[0] == "un" and e_[1] in ("PtrMetadata", "Len"):
+                                e_ = e_[2]
+                            elif e_[0] == "call" and e_[1].rsplit("::", 1)[-1] in ("as_bytes", "deref", "as_ref", "as_str", "borrow", "as_slice", "len") and len(e_[2]) == 1:
+                                e_ = e_[2][0]
+                            elif e_[0] in ("ref", "deref", "copy", "move") and len(e_) == 2:
+                                e_ = e_[1]
+                            else:
+                                break
+                        return e_
+                    if json.dumps(_peel(ln)) == json.dumps(_peel(subj)):
                         return "GUARD: index 0 dominated by a non-emptiness test of the same value"
                 if g[0] == "bin" and truth and g[1] == "Lt" and g[2] == idx and g[3] == ln:
                     return "GUARD: dominated by the same index < len test"
